@@ -8,6 +8,7 @@ import (
 	"fmt"
 	"go/ast"
 	"go/parser"
+	"go/types"
 	"os"
 	"regexp"
 	"strconv"
@@ -68,6 +69,8 @@ type FuncContract struct {
 	Behavior       string
 	AssumedEnsures []*Clause      // postconditions callers may use but the body check does not establish (listed as assumptions)
 	Splits         []*SplitSpec   // case splits applied to every proof obligation of the function
+	RecvType       types.Type     // set on a resolved "sameas" contract: the implementation's receiver type
+	SameAs         string         // interface method contract = the contract of this implementation ("pkgpath.(*T).M"), assumed to be the dynamic callee
 	LazySpecs      bool           // at call sites, recursive spec functions in this contract are left folded (unfolded by the solver on demand)
 	Definitional   bool           // postconditions that pin the fresh result are applied as definitions (term rewriting) at call sites
 	GhostUpd       []*GhostUpdate // ghost code executed at every return, before the postconditions
@@ -230,7 +233,7 @@ func parseParams(s string) []SpecParam {
 	return out
 }
 
-var clauseKw = map[string]bool{"behavior": true, "ensuresassumed": true, "ensureslocal": true, "split": true, "definitional": true, "lazyspecs": true, "set": true, "choose": true, "sqltext": true, "except": true, "allowcalls": true, "nocalls": true, "ensureserror": true, "ensureszero": true, "requires": true, "ensures": true, "modifies": true, "loop": true, "inline": true,
+var clauseKw = map[string]bool{"behavior": true, "ensuresassumed": true, "ensureslocal": true, "split": true, "definitional": true, "lazyspecs": true, "sameas": true, "set": true, "choose": true, "sqltext": true, "except": true, "allowcalls": true, "nocalls": true, "ensureserror": true, "ensureszero": true, "requires": true, "ensures": true, "modifies": true, "loop": true, "inline": true,
 	"trusted": true, "pure": true, "opaque": true, "nonnil": true, "props": true, "maypanic": true, "params": true,
 	"assert": true, "call": true}
 
@@ -656,6 +659,10 @@ func (cs *ContractSet) ParseFile(path, pkgPath string) error {
 		case "lazyspecs":
 			if cur != nil {
 				cur.LazySpecs = true
+			}
+		case "sameas":
+			if cur != nil {
+				cur.SameAs = strings.TrimSpace(it.rest)
 			}
 		case "nocalls":
 			if cur != nil {
